@@ -46,6 +46,8 @@ def run(ctx):
                 continue
             ob = analytic.upd_observation(m, tr)
             for st, got, what in ((ob['st0'], ob['lik0'], 'installed state'), (ob['after'], ob['lik1'], 'state after one sweep')):
+                if got is None:
+                    continue
                 ll, minrate = pyspec.loglik(st, ob['A'])
                 n_eval += 1
                 if not (minrate > pyspec.EPS) or abs(minrate - pyspec.EPS) < 1e-9 * pyspec.EPS:
